@@ -21,8 +21,7 @@ CFG = {
 
 SMALL = {
     'templates': ['m2m', 'composite', 'inherit', 'o2o_opt'],
-    'length': {'quick': 3, 'thorough': 4},
-    'budget': {'quick': 12000, 'thorough': 400000},
+    'budget': {'quick': 9000, 'thorough': 500000},
     'monitors': CFG['monitors'],
 }
 
